@@ -25,6 +25,9 @@ type DuplicateLabelCheck struct {
 	// acrossSteps makes two series with the same labels an error as soon as
 	// both have produced a sample, at whichever steps.
 	acrossSteps bool
+	// identities, when set, maps a series ID to the ID of the input series it
+	// stems from; conflicts are between different identities only.
+	identities []uint64
 }
 
 func NewDuplicateLabelCheck(series []labels.Labels) *DuplicateLabelCheck {
@@ -55,6 +58,29 @@ func NewDuplicateLabelCheckAcrossSteps(series []labels.Labels) *DuplicateLabelCh
 	return c
 }
 
+// NewDuplicateLabelCheckAcrossStepsOf is NewDuplicateLabelCheckAcrossSteps for
+// an operator whose input may already list one series several times: input
+// series with equal labels are the same series (their points are collected
+// under one label set further up) and never conflict with each other.
+func NewDuplicateLabelCheckAcrossStepsOf(series, input []labels.Labels) *DuplicateLabelCheck {
+	c := NewDuplicateLabelCheckAcrossSteps(series)
+	if c.groups == nil || len(input) != len(series) {
+		return c
+	}
+	ids := make(map[string]uint64, len(input))
+	c.identities = make([]uint64, len(input))
+	for i, s := range input {
+		key := s.String()
+		id, ok := ids[key]
+		if !ok {
+			id = uint64(len(ids))
+			ids[key] = id
+		}
+		c.identities[i] = id
+	}
+	return c
+}
+
 // Check returns ErrDuplicateLabelSet if two samples of the step vector belong
 // to series with the same labels.
 func (c *DuplicateLabelCheck) Check(vector StepVector) error {
@@ -68,10 +94,14 @@ func (c *DuplicateLabelCheck) Check(vector StepVector) error {
 				continue
 			}
 			group := c.groups[id]
-			if c.seen[group] != 0 && c.seen[group] != id+1 {
+			identity := id
+			if c.identities != nil {
+				identity = c.identities[id]
+			}
+			if c.seen[group] != 0 && c.seen[group] != identity+1 {
 				return ErrDuplicateLabelSet
 			}
-			c.seen[group] = id + 1
+			c.seen[group] = identity + 1
 		}
 		return nil
 	}
